@@ -200,6 +200,10 @@ func c13r2(c *Ctx, id string) {
 					return strings.ReplaceAll(name, " ", ""), nil
 				}
 			}
+			// `forEachValue(s.observers, couchbase.Observer.Close)`: a method expression applied to every value
+			if n := w.forEachApplication(cc); strings.HasPrefix(n, "Observer.") {
+				return n + "(all)", nil
+			}
 			if f := cc.StaticCallee(); f != nil && w.inModule(f) && closesStreams(w, f) {
 				return "closeAllStreams", nil
 			}
@@ -504,6 +508,23 @@ func c13r5(c *Ctx, id string) {
 				return
 			}
 			m, recv := csmapMethod(cc)
+			if m == "" {
+				// the map handed to an iteration helper of the module that uses it (`forEachValue(s.observers, …)`)
+				if g := cc.StaticCallee(); g != nil && g.Blocks != nil && w.inModule(g) && !cc.IsInvoke() {
+					for i, a := range cc.Args {
+						if i >= len(g.Params) || !derefsTo(a, f) {
+							continue
+						}
+						allInstrs(g, func(x ssa.Instruction) {
+							if c2 := callOf(x); c2 != nil {
+								if m2, r2 := csmapMethod(c2); m2 != "" && unwrap(r2) == ssa.Value(g.Params[i]) {
+									m, recv = m2, a
+								}
+							}
+						})
+					}
+				}
+			}
 			if m == "" || !derefsTo(recv, f) {
 				return
 			}
